@@ -237,12 +237,38 @@ theorem EInv_congr {sem : DSem} {st : Store} {dirty : Nat → Prop} {e : Enc} {w
   obtain ⟨hs, T, F, hI⟩ := h
   exact ⟨hs, T, F, by rw [hdb]; exact hI⟩
 
+theorem labelsOf_some {st : Store} : ∀ {ids : List Nat}, (∀ i ∈ ids, st.hasId i = true) →
+    ∃ ls, labelsOf st ids = some ls
+  | [], _ => ⟨[], rfl⟩
+  | i :: t, h => by
+    obtain ⟨ls, hls⟩ := labelsOf_some (ids := t) (fun j hj => h j (List.mem_cons_of_mem _ hj))
+    obtain ⟨l, hl⟩ := hasId_iff.1 (h i List.mem_cons_self)
+    refine ⟨l :: ls, ?_⟩
+    unfold labelsOf at hls ⊢
+    have hl' : st.labelOf i = some l := hl
+    simp only [List.map_cons, hl', optAll, hls, Option.map_some]
+
+/-- `get_argument_by_id` on each of `ids` does not panic when the ids are ids of the framework -/
 theorem wp_needLabels {C : Prop} (st : Store) (ids : List Nat) (w : World) (Q : List Nat → World → Prop)
-    (hc : C) (h : ∀ ls, labelsOf st ids = some ls → Q ls w) : wp C (needLabels st ids) w Q := by
+    (hlive : ∀ i ∈ ids, st.hasId i = true) (h : ∀ ls, labelsOf st ids = some ls → Q ls w) :
+    wp C (needLabels st ids) w Q := by
   unfold needLabels
-  cases hl : labelsOf st ids with
-  | none => exact hc
-  | some ls => exact h ls hl
+  obtain ⟨ls, hl⟩ := labelsOf_some hlive
+  rw [hl]
+  exact h ls hl
+
+/-- the ids decoded from a model are ids of the framework -/
+theorem argsWhere_live {st : Store} {e : Enc} {Γ : Cnf} {T F : Nat → Bool} {d : Nat → Prop}
+    (h : EncInv st e Γ T F d) (m : Model) (p : Option Bool → Bool) : ∀ a ∈ e.argsWhere m p, st.hasId a = true := by
+  intro a ha
+  obtain ⟨i, b, _, _, hty⟩ := (mem_argsWhere e m p a).1 ha
+  exact (h.ty_arg (i + 1) a hty).1
+
+theorem isExt_live {sem : DSem} {g : G} {S : ASet} (h : IsExt sem g S) : ∀ a, S a = true → g.live a = true := by
+  cases sem with
+  | ST => exact h.1.1
+  | CO => exact h.1.1.1
+  | PR => exact h.1.1.1
 
 theorem labelsOf_spec {st : Store} {ids ls : List Nat} (h : labelsOf st ids = some ls) :
     ∀ l ∈ ls, ∃ id ∈ ids, st.Live id l := by
@@ -279,7 +305,7 @@ theorem QInv_push' {sem : DSem} {d : DState} {w w' : World} (h : QInv sem d w) (
   have hle : d.next ≤ (d.buffer ++ [c]).length := by
     have := h.dinv.next_le
     simp; omega
-  refine ⟨⟨hw, h.dinv.af_inv, hclean, h.dinv.disabled, ?_, hle⟩, h.pend_inv, ?_, h.pend_rows⟩
+  refine ⟨⟨hw, h.dinv.af_inv, hclean, h.dinv.disabled, ?_, hle, fun _ => hsync⟩, h.pend_inv, ?_, h.pend_rows⟩
   · show EffRun d.af ((d.buffer ++ [c]).drop d.next) d.pending
     rw [hnext, List.drop_append_of_le_length (Nat.le_refl _), List.drop_length, List.nil_append]
     have : Event.op c = none := by cases c <;> simp_all [Event.isUpdate, Event.op]
@@ -313,9 +339,9 @@ theorem wp_argLit {C : Prop} {sem : DSem} {d : DState} {w : World} (h : QInv sem
   rw [hv', hxv]
   rfl
 
-theorem wp_credSolve {sem : DSem} (hsem : sem ≠ .PR) {d : DState} {w : World} (h : QInv sem d w)
+theorem wp_credSolve {C : Prop} {sem : DSem} (hsem : sem ≠ .PR) {d : DState} {w : World} (h : QInv sem d w)
     (hsync : d.af = d.pending) (hnext : d.next = d.buffer.length) {l id : Nat} (hl : d.pending.Live id l) :
-    wp True (credSolve d l) w (fun r w' => QInv sem r.1 w' ∧ r.1.pending = d.pending ∧
+    wp C (credSolve d l) w (fun r w' => QInv sem r.1 w' ∧ r.1.pending = d.pending ∧
       CredOK sem d.pending l r.2) := by
   have hpinv := h.pend_inv
   obtain ⟨hs, T, F, hI⟩ := h.dinv.clean
@@ -341,10 +367,10 @@ theorem wp_credSolve {sem : DSem} (hsem : sem ≠ .PR) {d : DState} {w : World} 
       rw [this, hsync]; simp [setOf]
     simp only
     rw [wp_bind]
-    apply wp_needLabels _ _ _ _ trivial
+    apply wp_needLabels _ _ _ _ (argsWhere_live hI m _)
     intro acc hacc
     rw [wp_bind]
-    apply wp_needLabels _ _ _ _ trivial
+    apply wp_needLabels _ _ _ _ (argsWhere_live hI m _)
     intro _ _
     refine ⟨QInv_push h (W0_onSolve h.dinv.w0 _ _ _) (by simp) hsync hnext rfl ?_, rfl, ?_⟩
     · intro e he
@@ -387,9 +413,9 @@ theorem wp_credSolve {sem : DSem} (hsem : sem ≠ .PR) {d : DState} {w : World} 
       rw [assumpsTrue_append, h2]
       simp [assumpsTrue, h3 id hidl, hSi]
 
-theorem wp_stSkepSolve {d : DState} {w : World} (h : QInv .ST d w)
+theorem wp_stSkepSolve {C : Prop} {d : DState} {w : World} (h : QInv .ST d w)
     (hsync : d.af = d.pending) (hnext : d.next = d.buffer.length) {l id : Nat} (hl : d.pending.Live id l) :
-    wp True (stSkepSolve d l) w (fun r w' => QInv .ST r.1 w' ∧ r.1.pending = d.pending ∧
+    wp C (stSkepSolve d l) w (fun r w' => QInv .ST r.1 w' ∧ r.1.pending = d.pending ∧
       SkepOK .ST d.pending l r.2) := by
   have hpinv := h.pend_inv
   obtain ⟨hs, T, F, hI⟩ := h.dinv.clean
@@ -415,10 +441,10 @@ theorem wp_stSkepSolve {d : DState} {w : World} (h : QInv .ST d w)
       rw [this, hsync]; simp [setOf]
     simp only
     rw [wp_bind]
-    apply wp_needLabels _ _ _ _ trivial
+    apply wp_needLabels _ _ _ _ (argsWhere_live hI m _)
     intro ref href
     rw [wp_bind]
-    apply wp_needLabels _ _ _ _ trivial
+    apply wp_needLabels _ _ _ _ (argsWhere_live hI m _)
     intro _ _
     refine ⟨QInv_push h (W0_onSolve h.dinv.w0 _ _ _) (by simp) hsync hnext rfl ?_, rfl, ?_⟩
     · intro e he
@@ -448,7 +474,11 @@ theorem wp_stSkepSolve {d : DState} {w : World} (h : QInv .ST d w)
   · intro hunsat
     simp only
     rw [wp_bind, wp_needArg (by rw [hsync]; exact hpinv) (by rw [hsync]; exact hl), wp_bind]
-    apply wp_needLabels _ _ _ _ trivial
+    apply wp_needLabels _ _ _ _ (by
+      intro j hj
+      obtain ⟨p, hp, rfl⟩ := List.mem_map.1 hj
+      have hatt := ((mem_iterFrom h.dinv.af_inv id p).1 hp).2
+      exact (Store.g_wf h.dinv.af_inv _ _ hatt).2)
     intro ref _
     refine ⟨QInv_push h (W0_onSolve h.dinv.w0 _ _ _) (by simp) hsync hnext rfl (by intro e he; cases he), rfl, ?_⟩
     intro id' hl'
@@ -468,6 +498,27 @@ theorem wp_stSkepSolve {d : DState} {w : World} (h : QInv .ST d w)
 
 /-! ## the queries: cache or recompute -/
 
+/-- answering from the cache does not panic: the cached extension was computed for the framework
+the solver still holds (`DInv.tail_sync`), so its ids are ids of that framework -/
+theorem wp_fromCache {C : Prop} {sem : DSem} {d : DState} {w : World} (h : QInv sem d w) {b : Bool} {e : List Nat}
+    {c : Event} (hcm : c ∈ d.buffer.reverse.takeWhile (fun ev => !ev.isUpdate)) {acc ref : List Nat}
+    (hcc : c = .cred acc ref (some e) ∨ c = .skep acc ref (some e)) (Q : DState × AccAns → World → Prop)
+    (hQ : Q (d, ⟨b, some e⟩) w) : wp C (fromCache d b e) w Q := by
+  have hsync : d.af = d.pending := h.dinv.tail_sync (List.ne_nil_of_mem hcm)
+  have hext : IsExt sem d.pending.g (ofList e) := by
+    have hsound := h.cache c hcm
+    rcases hcc with rfl | rfl
+    · exact (hsound e rfl).1
+    · exact (hsound e rfl).1
+  unfold fromCache
+  rw [wp_bind]
+  apply wp_needLabels
+  · intro i hi
+    rw [hsync]
+    exact isExt_live hext i (List.contains_iff_mem.2 hi)
+  · intro _ _
+    exact hQ
+
 theorem QInv_of_update {sem : DSem} {d d' : DState} {w w' : World} (h : QInv sem d w)
     (hd : DInv sem d' w') (hp : d'.pending = d.pending) (hb : d'.buffer = d.buffer) : QInv sem d' w' := by
   refine ⟨hd, by rw [hp]; exact h.pend_inv, ?_, by rw [hp]; exact h.pend_rows⟩
@@ -476,20 +527,17 @@ theorem QInv_of_update {sem : DSem} {d d' : DState} {w w' : World} (h : QInv sem
   rw [hb] at hc
   exact h.cache c hc
 
-theorem wp_credQuery {sem : DSem} (hsem : sem ≠ .PR) {d : DState} {w : World} (h : QInv sem d w)
+theorem wp_credQuery {C : Prop} {sem : DSem} (hsem : sem ≠ .PR) {d : DState} {w : World} (h : QInv sem d w)
     {l id : Nat} (hl : d.pending.Live id l) :
-    wp True (credQuery d l) w (fun r w' => QInv sem r.1 w' ∧ r.1.pending = d.pending ∧
+    wp C (credQuery d l) w (fun r w' => QInv sem r.1 w' ∧ r.1.pending = d.pending ∧
       CredOK sem d.pending l r.2) := by
   unfold credQuery
   split
   · rename_i b e hc
-    unfold fromCache
-    rw [wp_bind]
-    apply wp_needLabels _ _ _ _ trivial
-    intro _ _
-    refine ⟨h, rfl, ?_⟩
     obtain ⟨hb, c, hcm, acc, ref, hcc, hlacc⟩ := cachedCred_spec _ _ _ _ hc
     subst hb
+    apply wp_fromCache h hcm hcc
+    refine ⟨h, rfl, ?_⟩
     have hsound := h.cache c hcm
     have : IsExt sem d.pending.g (ofList e) ∧ (∀ l ∈ acc, ∃ id, d.pending.Live id l ∧ id ∈ e) := by
       rcases hcc with rfl | rfl
@@ -504,23 +552,20 @@ theorem wp_credQuery {sem : DSem} (hsem : sem ≠ .PR) {d : DState} {w : World} 
     refine wp_mono _ _ _ _ ?_ (wp_updateEncoding h.dinv)
     rintro d' w' ⟨hd, haf, hp, hb, hn⟩
     have hq := QInv_of_update h hd hp hb
-    have := wp_credSolve hsem hq (by rw [haf, hp]) (by rw [hn, hb]) (l := l) (id := id) (by rw [hp]; exact hl)
+    have := wp_credSolve (C := C) hsem hq (by rw [haf, hp]) (by rw [hn, hb]) (l := l) (id := id) (by rw [hp]; exact hl)
     rw [hp] at this
     exact this
 
-theorem wp_stSkepQuery {d : DState} {w : World} (h : QInv .ST d w) {l id : Nat} (hl : d.pending.Live id l) :
-    wp True (stSkepQuery d l) w (fun r w' => QInv .ST r.1 w' ∧ r.1.pending = d.pending ∧
+theorem wp_stSkepQuery {C : Prop} {d : DState} {w : World} (h : QInv .ST d w) {l id : Nat} (hl : d.pending.Live id l) :
+    wp C (stSkepQuery d l) w (fun r w' => QInv .ST r.1 w' ∧ r.1.pending = d.pending ∧
       SkepOK .ST d.pending l r.2) := by
   unfold stSkepQuery
   split
   · rename_i b e hc
-    unfold fromCache
-    rw [wp_bind]
-    apply wp_needLabels _ _ _ _ trivial
-    intro _ _
-    refine ⟨h, rfl, ?_⟩
     obtain ⟨hb, c, hcm, acc, ref, hcc, hlref⟩ := cachedSkep_spec _ _ _ _ hc
     subst hb
+    apply wp_fromCache h hcm hcc
+    refine ⟨h, rfl, ?_⟩
     have hsound := h.cache c hcm
     have : IsExt .ST d.pending.g (ofList e) ∧ (∀ l ∈ ref, ∀ id, d.pending.Live id l → id ∉ e) := by
       rcases hcc with rfl | rfl
@@ -532,7 +577,7 @@ theorem wp_stSkepQuery {d : DState} {w : World} (h : QInv .ST d w) {l id : Nat} 
     refine wp_mono _ _ _ _ ?_ (wp_updateEncoding h.dinv)
     rintro d' w' ⟨hd, haf, hp, hb, hn⟩
     have hq := QInv_of_update h hd hp hb
-    have := wp_stSkepSolve hq (by rw [haf, hp]) (by rw [hn, hb]) (l := l) (id := id) (by rw [hp]; exact hl)
+    have := wp_stSkepSolve (C := C) hq (by rw [haf, hp]) (by rw [hn, hb]) (l := l) (id := id) (by rw [hp]; exact hl)
     rw [hp] at this
     exact this
 
